@@ -1224,3 +1224,32 @@ package modfile
 //@     invariant true
 //@     decreases len(mod)
 //@   props C20
+
+//@ # ---------- building blocks of SetRequireSeparateIndirect (the function itself is not under contract) ----------
+//@ # hasComments: comments other than the lone "indirect" marker
+//@ func (*File).SetRequireSeparateIndirect$1
+//@   allocates
+//@   ensures [C16] comments_other_than_the_marker: result == (len(c.Before) > 0 || len(c.After) > 0 || len(c.Suffix) > 1 || (len(c.Suffix) == 1 && strings.TrimSpace(strings.TrimPrefix(c.Suffix[0].Token, "//")) != "indirect"))
+//@   props C16
+//@ # insertBlock(i): a fresh empty require block becomes statement i; what was there and after it moves up by one
+//@ func (*File).SetRequireSeparateIndirect$3
+//@   requires f != nil && f.Syntax != nil && 0 <= i && i <= len(f.Syntax.Stmt)
+//@   modifies FileSyntax.Stmt, []Expr
+//@   allocates
+//@   ensures [C16] fresh_require_block: result != nil && fresh(result) && len(result.Token) == 1 && result.Token[0] == "require" && len(result.Line) == 0
+//@   ensures [C16] inserted_at: len(f.Syntax.Stmt) == old(len(f.Syntax.Stmt)) + 1 && ISBLOCK(f.Syntax.Stmt[i]) && ifaceptr(f.Syntax.Stmt[i]) == result
+//@   ensures [C16] before_kept: forall k int {f.Syntax.Stmt[k]} :: 0 <= k && k < i ==> f.Syntax.Stmt[k] == old(f.Syntax.Stmt[k])
+//@   ensures [C16] after_moved_up: forall k int {f.Syntax.Stmt[k]} :: i < k && k < len(f.Syntax.Stmt) ==> f.Syntax.Stmt[k] == old(f.Syntax.Stmt[k-1])
+//@   props C16
+//@ # ensureBlock(i): statement i as a block - the block itself, or a fresh require block whose only line is the former
+//@ # top-level line, now marked in-block and without its verb
+//@ func (*File).SetRequireSeparateIndirect$4
+//@   requires f != nil && f.Syntax != nil && 0 <= i && i < len(f.Syntax.Stmt)
+//@   requires (ISBLOCK(f.Syntax.Stmt[i]) && ifaceptr(f.Syntax.Stmt[i]) != 0) || (ISLINE(f.Syntax.Stmt[i]) && ifaceptr(f.Syntax.Stmt[i]) != 0 && len(ifaceptr(f.Syntax.Stmt[i], "*Line").Token) >= 1)
+//@   modifies FileSyntax.Stmt, []Expr, Line.Token, Line.InBlock
+//@   allocates
+//@   ensures [C16] is_the_block_at_i: result != nil && ISBLOCK(f.Syntax.Stmt[i]) && ifaceptr(f.Syntax.Stmt[i]) == result && len(f.Syntax.Stmt) == old(len(f.Syntax.Stmt))
+//@   ensures [C16] existing_block_returned: old(ISBLOCK(f.Syntax.Stmt[i])) ==> result == old(ifaceptr(f.Syntax.Stmt[i]))
+//@   ensures [C16] line_wrapped: old(ISLINE(f.Syntax.Stmt[i])) ==> fresh(result) && len(result.Line) == 1 && result.Line[0] == old(ifaceptr(f.Syntax.Stmt[i])) && result.Line[0].InBlock && len(result.Line[0].Token) == old(len(ifaceptr(f.Syntax.Stmt[i], "*Line").Token)) - 1 && len(result.Token) == 1 && result.Token[0] == "require"
+//@   ensures [C16] others_kept: forall k int {f.Syntax.Stmt[k]} :: 0 <= k && k < len(f.Syntax.Stmt) && k != i ==> f.Syntax.Stmt[k] == old(f.Syntax.Stmt[k])
+//@   props C16
